@@ -22,6 +22,13 @@ Streams
   U   verb spellings from the full Unicode case-mapping closure of "pass" (every character that lower / casefold /
       upper / NFKC / NFKD send to a piece of "pass", computed from the interpreter), sent as raw lines after
       USER; judged by "answered as a login (not 502) => censored"; compared with model fn 2
+  A   alias spellings of EVERY verb of the server (x+verb, verb+x, truncations, suffixes, doubled; lower/upper case)
+      carrying a marker argument, in three login contexts (after USER, logged in, no user); judged by where the line
+      ends up -- argument handed to authenticate() or the reply a genuine PASS gets in that context => censored;
+      compared with model fn 2 (a non-verb is answered 502)
+  M   several control connections on one server with connection limits (User.maximum_connections = 1..3,
+      Server.maximum_connections): full / pending / released slots, two limited users, anonymous, the real client;
+      oracle over the records of all connections + the refusal reply predicted
   X   outside the property's domain, observed and reported, never a violation: TAB separator,
       leading blank, LF inside the password, undecodable bytes, over-long line (for the last two
       the marker oracle is still evaluated: the traceback must not carry the content)
@@ -64,7 +71,7 @@ LEVEL_TEXT = (
     "C20_outcome_independent, C20_pass_reply_fixed, C20_censored_args_are_stars, C20_pass_spellings, C20_other_verbs_are_not_logins and the checker "
     "soundness theorems C20_every_site_hides_server/client are proved for every verb spelling the server dispatches as "
     "PASS, every password string (LF-free at stream level), every line ending, every session prefix/suffix and user table "
-    "(Closed under the global context); C20_check_log_sites, C20_modelled_sites_match and C20_pass_facts are closed "
+    "(Closed under the global context); C20_check_log_sites, C20_modelled_sites_match, C20_no_secret_object_logged and C20_pass_facts (incl. 'the handler of a line is commands_mapping.get(<the verb parse_command returned>) and nothing else') are closed "
     "obligations over the logging-site inventory regenerated from /repo on every run, C20_login_program_ok over the regenerated login program. The model is hand-written; its "
     "tie to the code is the regenerated inventory plus a differential correspondence on captured LogRecord objects, so "
     "the assurance is a proof about the model plus regenerated structure plus sampled agreement of model and code."
@@ -79,7 +86,8 @@ LEVEL_NOTE = (
 )
 TRUSTED = [
     "tools/py2v/gen_logging.py: intra-procedural taint pass over every logging call of server.py/client.py/common.py/pathio.py "
-    "(fail-closed on aliasing of logger objects, *args, computed levels, logging calls in lambdas/comprehensions/class bodies)",
+    "(fail-closed on aliasing of logger objects, *args, computed levels, logging calls in lambdas/comprehensions/class bodies; locals named by role, "
+    "objects of classes whose __repr__/__str__ prints the password found by use and treated as password sources)",
     "logging.LogRecord.getMessage formats msg % args only when args is non-empty; logging.Formatter.formatException prints "
     "exception type, str(exception) and source lines, never local values (exercised: undecodable and over-long PASS lines)",
     "text-level model: decode(encode(t)) = t for utf-8; readline() splits at LF only (exercised)",
@@ -87,7 +95,8 @@ TRUSTED = [
 ASSUMPTIONS = [
     "domain: a PASS command is V ++ ' ' ++ p with lower(V) = 'pass' (the server's own verb grammar); p is LF-free at stream "
     "level (an LF ends the command); the password decodes in the server's encoding",
-    "modelled, not verified: CPython str.rstrip/partition/lower, logging %-formatting of '%s', MemoryUserManager without connection limits",
+    "modelled, not verified: CPython str.rstrip/partition/lower, logging %-formatting of '%s', MemoryUserManager without connection limits "
+    "(the limits are exercised on the real code by stream M: oracle and refusal prediction, no Coq model)",
     "the reply texts of the model are literals; Gen/Logging.v re-extracts them and checks they are literals in the source, "
     "the correspondence compares them byte for byte",
 ]
@@ -803,6 +812,283 @@ def spelling_verdict(rng, V, q):
     return handled, reply, cs, fails
 
 
+# ---------------------------------------------------------------------------- A / M: several connections, aliases, limits
+class RecordingUserManager(aioftp.MemoryUserManager):
+    """an application user manager that notes which strings the server TREATED AS A PASSWORD (handed to authenticate)"""
+
+    def __init__(self, users):
+        super().__init__(users)
+        self.auth_calls = []
+
+    async def authenticate(self, user, password):
+        self.auth_calls.append(password)
+        return await super().authenticate(user, password)
+
+
+def mk_limited_users(spec):
+    """[(login, password, maximum_connections or None)] -> [aioftp.User]"""
+    us = []
+    for login, pw, mx in spec:
+        kw = {} if mx is None else {"maximum_connections": mx}
+        us.append(aioftp.User(login, pw, base_path=pathlib.PurePosixPath("/"), **kw))
+    return us
+
+
+def run_steps(users_spec, steps, server_limit=None, debug=False):
+    """real Server, several raw control connections driven step by step on simnet.  steps: ("open", c) /
+    ("send", c, bytes) / ("close", c) / ("login", c, user, password) = the real aioftp.Client connecting as
+    connection c and calling login().  Returns (one reply list / outcome per step, canon records, strings handed to
+    authenticate).  A hang or crash is an outcome."""
+    auth = []
+
+    async def main(net):
+        if debug:
+            asyncio.get_running_loop().set_debug(True)
+        um = RecordingUserManager(mk_limited_users(users_spec))
+        kw = {} if server_limit is None else {"maximum_connections": server_limit}
+        server = aioftp.Server(um, path_io_factory=aioftp.MemoryPathIO, **kw)
+        await server.start("127.0.0.1", 2121)
+        conns, out = {}, []
+        for st in steps:
+            try:
+                if st[0] == "open":
+                    conns[st[1]] = await simnet.Raw.connect(net, 2121)
+                    out.append(await conns[st[1]].drain_replies())
+                elif st[0] == "send":
+                    raw = conns[st[1]]
+                    if raw.eof:
+                        out.append(["<eof>"])
+                        continue
+                    raw.writer.write(st[2])
+                    out.append(await raw.drain_replies())
+                elif st[0] == "close":
+                    conns.pop(st[1]).close()
+                    await net.settle()
+                    out.append([])
+                elif st[0] == "login":
+                    client = aioftp.Client()
+                    conns[st[1]] = client
+                    await client.connect("127.0.0.1", 2121)
+                    try:
+                        await client.login(st[2], st[3])
+                        out.append(["logged-in"])
+                    except aioftp.StatusCodeError as e:
+                        out.append(["status:" + ",".join(str(c) for c in e.received_codes)])
+            except Exception as e:  # the (mutated) implementation raised / hung up: an outcome of this step
+                out.append(["raised:" + type(e).__name__])
+        for c in list(conns.values()):
+            c.close()
+        await net.settle()
+        await server.close()
+        await net.settle()
+        auth.extend(um.auth_calls)
+        return out
+
+    with Capture() as cap:
+        try:
+            out = simnet.run(main, wall_timeout=20)
+        except Exception as e:
+            out = [["harness:" + type(e).__name__]]
+    return out, [canon(r) for r in cap.records], list(auth)
+
+
+def server_verbs():
+    """the verbs the server under test dispatches (keys of Server().commands_mapping)"""
+    return sorted(aioftp.Server().commands_mapping)
+
+
+def mixcase(rng, v):
+    return "".join(rng.choice([c.lower(), c.upper()]) for c in v)
+
+
+def alias_spellings(rng, verbs, full):
+    """for EVERY verb v of the server: the spellings an alias / abbreviation / fallback mechanism could map to v and
+    that are not PASS -- RFC 775 style `x`+v, v+`x`, truncations (v without its last letter, its first
+    three letters), v with a suffix (`d`, `wd`, `word`), v doubled -- lower, upper and mixed case.  The verb is what
+    parse_command makes of the line (text before the first space), so the alias always carries the argument."""
+    out = []
+    for v in verbs:
+        cands = ["x" + v, v + "x", v[:-1], v[:3], v + "d", v + "wd", v + "word", v + v]
+        if full:
+            cands += ["x" + v + "x", "y" + v, v[1:], v[:2], v + "s", v + "1", "x-" + v, v + "_"]
+        for a in cands:
+            if len(a) >= 2 and a.lower() != "pass":  # a spelling that happens to be a key of the mapping stays in: the oracle decides
+                out.append((v, a))
+                out.append((v, a.upper()))
+                if full:
+                    out.append((v, mixcase(rng, a)))
+    seen, uniq = set(), []
+    for v, a in out:
+        if a not in seen:
+            seen.add(a)
+            uniq.append((v, a))
+    return uniq
+
+
+ALIAS_CONTEXTS = {
+    # context -> lines sent before the alias line (q = the marker password, also the configured one)
+    "after-user": lambda q: ["USER u"],
+    "logged-in": lambda q: ["USER u", f"PASS {q}"],
+    "no-user": lambda q: [],
+}
+
+
+def run_alias_session(ctxname, V, q):
+    """`V q` as a raw line in a login context: (reply lines to that line, records, strings handed to authenticate by it)"""
+    pre = ALIAS_CONTEXTS[ctxname](q)
+    steps = [("open", 0)] + [("send", 0, (l + "\r\n").encode("utf-8")) for l in pre]
+    steps.append(("send", 0, (V + " " + q + "\r\n").encode("utf-8", "surrogatepass")))
+    out, cs, auth = run_steps([("u", q.rstrip(), None)], steps)
+    n_pre_auth = sum(1 for l in pre if l.upper().startswith("PASS "))
+    return (out[-1] if len(out) == len(steps) else ["<no reply>"]), cs, auth[n_pre_auth:]
+
+
+_PASS_REPLY = {}
+
+
+def pass_reply(ctxname, q):
+    """what the server under test answers to a genuine `PASS q` in this context (the PASS handler's reply there)"""
+    if ctxname not in _PASS_REPLY:
+        _PASS_REPLY[ctxname] = run_alias_session(ctxname, "PASS", q)[0]
+    return _PASS_REPLY[ctxname]
+
+
+def alias_verdict(rng, ctxname, V, q):
+    """the oracle for one alias line: a line whose argument the server TREATED AS A PASSWORD -- it was handed to
+    authenticate(), or the line got exactly the PASS handler's reply of this context (230/530 after USER, 503 already
+    logged in, 503 no user) -- must be censored: no marker character in any record, equal transcripts for two
+    arguments of equal length.  Judged by where the line ended up, not by its spelling."""
+    reply, cs, auth = run_alias_session(ctxname, V, q)
+    ref = pass_reply(ctxname, q)
+    codes = simnet.final_codes(reply)
+    treated = bool(auth) or (reply == ref and codes[:1] != ["502"])
+    fails = []
+    if treated:
+        hit = has_marker(cs)
+        if hit:
+            fails.append(("leak", hit))
+        q2 = twin(rng, q)
+        reply2, cs2, auth2 = run_alias_session(ctxname, V, q2)
+        if reply2 != reply or transcript(cs) != transcript(cs2):
+            fails.append(("twin", first_diff(transcript(cs), transcript(cs2))))
+    return treated, reply, cs, auth, fails
+
+
+MULTI_SCENARIOS = ["limit-full", "limit-pending", "limit-release", "limit-other-user", "anonymous-limit", "server-limit", "limit-full-client"]
+
+
+def multi_scenario(name, k, V, q, end="\r\n"):
+    """(users, server limit, steps, index of the step that must be REFUSED because all connections are in use or None,
+    expected refusal reply prefix).  q is the marker password, configured for user u with maximum_connections = k."""
+    conf = q.rstrip()
+    b = lambda l: (l + end).encode("utf-8", "surrogatepass")
+    users, limit, steps = [("u", conf, k)], None, []
+    refused, expect = None, None
+    if name == "limit-full":  # k sessions of u logged in, one more connection asks for u
+        for c in range(k):
+            steps += [("open", c), ("send", c, b("USER u")), ("send", c, b(f"{V} {q}"))]
+        steps += [("open", k), ("send", k, b("USER u"))]
+        refused, expect = len(steps) - 1, "530 too much connections for 'u'"
+        steps += [("send", k, b(f"{V} {q}")), ("send", 0, b("NOOP"))]
+    elif name == "limit-pending":  # the slots are taken by sessions that sent USER only
+        for c in range(k):
+            steps += [("open", c), ("send", c, b("USER u"))]
+        steps += [("open", k), ("send", k, b("USER u"))]
+        refused, expect = len(steps) - 1, "530 too much connections for 'u'"
+        steps += [("send", 0, b(f"{V} {q}")), ("send", k, b(f"{V} {q}")), ("send", k, b("USER u"))]
+    elif name == "limit-release":  # a slot is given back, the next connection gets in
+        for c in range(k):
+            steps += [("open", c), ("send", c, b("USER u")), ("send", c, b(f"{V} {q}"))]
+        steps += [("open", k), ("send", k, b("USER u"))]
+        refused, expect = len(steps) - 1, "530 too much connections for 'u'"
+        steps += [("send", 0, b("QUIT")), ("close", 0), ("send", k, b("USER u")), ("send", k, b(f"{V} {q}"))]
+    elif name == "limit-other-user":  # two limited users; refused for both, unknown user in between
+        users = [("u", conf, k), ("v", OTHER_PW, 1)]
+        for c in range(k):
+            steps += [("open", c), ("send", c, b("USER u")), ("send", c, b(f"{V} {q}"))]
+        steps += [("open", k), ("send", k, b("USER v")), ("send", k, b(f"{V} {OTHER_PW}"))]
+        steps += [("open", k + 1), ("send", k + 1, b("USER v")), ("send", k + 1, b("USER nobody")), ("send", k + 1, b("USER u"))]
+        refused, expect = len(steps) - 1, "530 too much connections for 'u'"
+        steps += [("send", k + 1, b(f"{V} {q}"))]
+    elif name == "anonymous-limit":  # the anonymous user is limited; the password is whatever the peer sends
+        users = [(None, None, k), ("u", conf, None)]
+        for c in range(k):
+            steps += [("open", c), ("send", c, b("USER anonymous")), ("send", c, b(f"{V} {q}"))]
+        steps += [("open", k), ("send", k, b("USER ftp"))]
+        refused, expect = len(steps) - 1, "530 too much connections for 'anonymous'"
+        steps += [("send", k, b(f"{V} {q}")), ("send", k, b("USER u")), ("send", k, b(f"{V} {q}"))]
+    elif name == "server-limit":  # Server(maximum_connections=k): the k+1-th connection is greeted with 421
+        users, limit = [("u", conf, None)], k
+        for c in range(k):
+            steps += [("open", c), ("send", c, b("USER u")), ("send", c, b(f"{V} {q}"))]
+        steps += [("open", k)]
+        refused, expect = len(steps) - 1, "421"
+        steps += [("send", k, b("USER u")), ("send", k, b(f"{V} {q}"))]
+    elif name == "limit-full-client":  # the same with the real client on every connection
+        for c in range(k):
+            steps += [("login", c, "u", q)]
+        steps += [("login", k, "u", q)]
+        refused, expect = len(steps) - 1, "status:530"
+    else:
+        raise KeyError(name)
+    return users, limit, steps, refused, expect
+
+
+def multi_pair(rng, name, k, V, p, end="\r\n", debug=False):
+    """one multi-connection scenario with p and with its marker twin: [(password, step outputs, records, auth)], failures"""
+    runs = []
+    for q in (p, twin(rng, p)):
+        users, limit, steps, refused, expect = multi_scenario(name, k, V, q, end)
+        out, cs, auth = run_steps(users, steps, server_limit=limit, debug=debug)
+        runs.append((q, out, cs, auth))
+    (p1, o1, c1, a1), (p2, o2, c2, a2) = runs
+    fails = []
+    hit = has_marker(c2) if p2 != p1 else None
+    if hit:
+        fails.append(("leak", hit))
+    if o1 != o2 or transcript(c1) != transcript(c2):
+
+        def rerun(q):
+            users, limit, steps, _, _ = multi_scenario(name, k, V, q, end)
+            o, c, _ = run_steps(users, steps, server_limit=limit)
+            return (o, transcript(c))
+
+        if not only_byte_length(rng, p1, (o1, transcript(c1)), rerun):
+            fails.append(("twin", first_diff(transcript(c1), transcript(c2)) or {"outputs": [o1, o2]}))
+    return runs, fails
+
+
+
+def secret_classes_tie():
+    """the translator's list of classes whose __repr__/__str__ prints the password (taint sources of the logging
+    inventory) against the running code: every class of aioftp.server that takes a `password` and shows it in
+    repr()/str() must be on the list"""
+    import ast
+
+    import aioftp.server as srvmod
+
+    try:
+        from tools.py2v import gen_logging
+
+        static = sorted(gen_logging.secret_repr_classes(ast.parse(pathlib.Path(inspect.getsourcefile(srvmod)).read_text())))
+    except Exception as e:
+        static = ["<translator failed: %s>" % type(e).__name__]
+    mk = "".join(MARK[:4])
+    dyn = []
+    for name, cls in sorted(vars(srvmod).items()):
+        if isinstance(cls, type) and cls.__module__ == srvmod.__name__:
+            try:
+                if "password" not in inspect.signature(cls).parameters:
+                    continue
+                obj = cls(password=mk)
+                if MARK_RE.search(repr(obj) + "\x1f" + str(obj)):
+                    dyn.append(name)
+            except Exception:
+                continue
+    return {"translator": static, "runtime": dyn}
+
+
+
 # ---------------------------------------------------------------------------- the check
 def correspondence(ctx, budget=None):
     rng = ctx.rng
@@ -823,6 +1109,9 @@ def correspondence(ctx, budget=None):
         "each script run with a password and its marker twin; "
         "U: every spelling of 'pass' with one non-ASCII character of the interpreter's case-mapping / compatibility closure at each position "
         "(+ random multi-character ones), raw session USER u / <spelling> <marker>, oracle: answered other than 502 => no marker, twin-equal. "
+        "A: for every verb of Server().commands_mapping the alias spellings x+v, v+x, v[:-1], v[:3], v+d/wd/word, v+v (thorough: more, random case), lower and upper, "
+        "x 3 login contexts, raw session with a marker argument, oracle: argument handed to authenticate() or answered like a genuine PASS of that context => no marker, twin-equal; "
+        "M: 7 multi-connection scenarios with connection limits (per user k=1..3, per server, anonymous, real client) x 6 verb spellings x passwords, each with p and twin; "
         "A case is non-trivial when its (stream, verb/outcome, password) key is new."
     )
     xcheck = []
@@ -1186,6 +1475,101 @@ def correspondence(ctx, budget=None):
     ctx.extra["unicode_closure_of_pass"] = {k: len(v) for k, v in pass_closure().items()}
     obs_u = {"spellings": len(spell), "answered_as_login": n_handled, "answered_502_outside_the_domain": len(u_runs) - n_handled}
 
+    # ------------------------------------------------------------ A: alias spellings of EVERY verb, judged by where the line ends up
+    verbs_now = server_verbs()
+    aliases = alias_spellings(rng, verbs_now, full=(thorough or bool(budget)))
+    _PASS_REPLY.clear()
+    a_runs = []
+    n_treated = 0
+    a_marks = [twin(rng, p) for p in s3_pws]
+    for i, (v0, V) in enumerate(aliases):
+        for j, ctxname in enumerate(ALIAS_CONTEXTS):
+            q = a_marks[(i + j) % len(a_marks)]
+            ctx.case(("A", ctxname, V, q))
+            ctx.traces_impl += 1
+            try:
+                treated, reply, cs, auth, fails = alias_verdict(rng, ctxname, V, q)
+            except Exception as e:  # harness-level failure: observation
+                ctx.disagree("A-run", [ctxname, V, q], "a verdict", f"{type(e).__name__}: {e}"[:200])
+                continue
+            n_treated += treated
+            if V.lower() not in verbs_now:  # a key of the mapping (pwd, mls.. or an alias ENTRY) is no "unknown verb" for the model
+                a_runs.append((ctxname, V, q, reply, cs))
+            for kind, info in fails:
+                rp = {"key": "c20-alias-verb-" + kind, "driver": "raw", "context": ctxname, "verb": V, "alias_of": v0, "password": q,
+                      "reply": reply, "reply_of_PASS_in_this_context": pass_reply(ctxname, q), "handed_to_authenticate": auth}
+                if kind == "leak":
+                    rp.update({"logger": info[0][0], "record": list(info[0][:5]), "found": info[1]})
+                    ctx.violation("a line whose verb is not PASS reached the PASS handler (its argument was treated as a password) after being logged in clear", rp)
+                else:
+                    rp["diff"] = info
+                    ctx.violation("a line whose verb is not PASS reached the PASS handler and the log depends on its argument", rp)
+    mo = ctx.model([(2, [censor, enc_users([("u", q.rstrip())]), conn_addr(split_loggers(cs)[0])[0], conn_addr(split_loggers(cs)[0])[1],
+                         [l + "\r\n" for l in ALIAS_CONTEXTS[ctxname](q)] + [V + " " + q + "\r\n"]]) for ctxname, V, q, reply, cs in a_runs])
+    for (ctxname, V, q, reply, cs), o in zip(a_runs, mo):
+        ms = [mrec(x) for x in o]
+        if not recs_match(ms, [irec(c) for c in session_body(split_loggers(cs)[0])]):
+            ctx.disagree("A-server-records", [ctxname, V, q], ms, [irec(c) for c in session_body(split_loggers(cs)[0])])
+    ctx.count("A_alias_lines", len(aliases) * len(ALIAS_CONTEXTS))
+    ctx.count("A_alias_lines_compared_with_the_model", len(a_runs))
+    ctx.count("A_alias_lines_treated_as_password", n_treated)
+    ctx.extra["alias_stream"] = {"verbs": len(verbs_now), "aliases": len(aliases), "contexts": list(ALIAS_CONTEXTS),
+                                 "reply_of_PASS_per_context": dict(_PASS_REPLY), "treated_as_password": n_treated}
+    if {k: simnet.final_codes(v)[:1] for k, v in _PASS_REPLY.items()} != {"after-user": ["230"], "logged-in": ["503"], "no-user": ["503"]}:
+        ctx.disagree("A-reference", "replies of a genuine PASS in the three contexts", "230 / 503 / 503", dict(_PASS_REPLY))
+
+    # ------------------------------------------------------------ M: several sessions, connection limits
+    m_runs = 0
+    n_refused = 0
+    m_pws = [p for p in pws if p.strip()]
+    m_jobs = []
+    for i, name in enumerate(MULTI_SCENARIOS):
+        for k in (1, 2, 3):
+            for r in range(6 * scale if not thorough else 24):
+                V = SPELLINGS[(i + k + r) % len(SPELLINGS)]
+                p = m_pws[(7 * i + 3 * k + 11 * r) % len(m_pws)] if r % 2 == 0 else (gen_password(rng, long_ok=False).replace("\n", "") or "x")
+                if not p.strip():
+                    p = "x" + p
+                try:
+                    p.encode("utf-8")
+                except UnicodeEncodeError:
+                    p = "pw"
+                m_jobs.append((name, k, V, p, "\r\n" if (i + r) % 4 else "\n"))
+    for idx, (name, k, V, p, end) in enumerate(m_jobs):
+        ctx.case(("M", name, k, V, p, end))
+        ctx.traces_impl += 2
+        try:
+            runs, fails = multi_pair(rng, name, k, V, p, end, debug=(idx % 13 == 0))
+        except Exception as e:
+            ctx.disagree("M-run", [name, k, V, p], "a verdict", f"{type(e).__name__}: {e}"[:200])
+            continue
+        m_runs += 2
+        users, limit, steps, refused, expect = multi_scenario(name, k, V, p, end)
+        for q, out, cs, auth in runs:
+            got = out[refused] if refused is not None and refused < len(out) else None
+            if got and got[0].startswith(expect):
+                n_refused += 1
+            else:
+                ctx.disagree("M-refusal", [name, k, V, q], expect, got)
+        for kind, info in fails:
+            rp = {"key": "c20-multi-session-" + kind, "driver": "raw+client", "scenario": name, "limit": k, "verb": V, "password": runs[0][0], "twin": runs[1][0],
+                  "end": end, "steps": [[st[0], st[1]] + [x.decode("utf-8", "replace") if isinstance(x, bytes) else x for x in st[2:]] for st in multi_scenario(name, k, V, runs[1][0], end)[2]],
+                  "step_outputs": runs[1][1]}
+            if kind == "leak":
+                rp.update({"logger": info[0][0], "record": list(info[0][:5]), "found": info[1]})
+                ctx.violation("a log record of a server with several sessions and a connection limit contains a character of a user's password", rp)
+            else:
+                rp["diff"] = info
+                ctx.violation("log transcripts of the same multi-session history differ for two passwords of equal length", rp)
+    ctx.count("M_multi_session_histories", m_runs)
+    ctx.count("M_histories_in_which_a_login_was_refused_by_a_connection_limit", n_refused)
+    if n_refused == 0:
+        ctx.disagree("M-non-vacuity", "no history hit a connection limit", ">0", 0)
+    tie = secret_classes_tie()
+    ctx.extra["classes_whose_repr_prints_the_password"] = tie
+    if not set(tie["runtime"]) <= set(tie["translator"]):
+        ctx.disagree("secret-repr-classes", "classes of aioftp.server whose repr()/str() shows the password", tie["translator"], tie["runtime"])
+
     # ------------------------------------------------------------ X: outside the domain (observations)
     obs = {}
     mk = "".join(MARK[:6])
@@ -1310,6 +1694,25 @@ def replay(ctx, data):
         runs, fails = scripted_pair(rng, r["script"], r["user"], p, r["account"], timeout=r.get("socket_timeout"))
         for q, outcome, sent, cs in runs:
             print("password", repr(q), "outcome", outcome, "peer received", sent)
+            for c in cs:
+                print("  ", c[:5])
+        for f in fails:
+            print("ORACLE:", f[0], f[1] if f[0] == "twin" else (list(f[1][0][:5]), f[1][1]))
+        return not fails
+    if key in ("c20-alias-verb-leak", "c20-alias-verb-twin"):
+        _PASS_REPLY.clear()
+        treated, reply, cs, auth, fails = alias_verdict(rng, r["context"], r["verb"], r["password"])
+        print("context", r["context"], "line", repr(r["verb"] + " <marker>"), "reply", reply, "reply of a genuine PASS here", pass_reply(r["context"], r["password"]))
+        print("handed to authenticate:", auth, "=> treated as a password:", treated)
+        for c in cs:
+            print("  ", c[:5])
+        for f in fails:
+            print("ORACLE:", f[0])
+        return not fails
+    if key in ("c20-multi-session-leak", "c20-multi-session-twin"):
+        runs, fails = multi_pair(rng, r["scenario"], r["limit"], r["verb"], r.get("twin") or r["password"], r.get("end", "\r\n"))
+        for q, out, cs, auth in runs:
+            print("password", repr(q), "step outputs", out)
             for c in cs:
                 print("  ", c[:5])
         for f in fails:
